@@ -150,6 +150,15 @@ pub fn run(out_prefix: &str, shards: usize, seed: u64, scale: usize) -> PStats {
                         if len >= p.len() {
                             h[off..off + p.len()].copy_from_slice(p);
                         }
+                        // often a NEAR MISS instead of / in addition to the occurrence: the pattern with
+                        // one byte altered (every index gets its turn), which a verification that
+                        // skips or mis-compares some bytes would accept
+                        if p.len() >= 2 && rg.gen_range(0..3) == 0 && len >= p.len() {
+                            let k = (off + len) % p.len();
+                            let o2 = if rg.gen_bool(0.5) { off } else { rg.gen_range(0..=(len - p.len())) };
+                            h[o2..o2 + p.len()].copy_from_slice(p);
+                            h[o2 + k] = h[o2 + k].wrapping_add(1 + (k as u8 % 3));
+                        }
                         // sometimes a second, different pattern earlier/later
                         if rg.gen_range(0..3) == 0 {
                             let q = &pats[rg.gen_range(0..pats.len())];
